@@ -207,6 +207,26 @@ class Ctx:
         return parsed
 
 
+def sweep_scratch():
+    """Scratch directories under /dev/shm and /var/tmp left by harness processes that were killed (a
+    shard dying of SIGBUS is an expected observation): remove those whose owner process is gone."""
+    import glob
+    import re
+    for base in ("/dev/shm", "/var/tmp"):
+        for d in glob.glob(os.path.join(base, "cbverif*")):
+            m = re.findall(r"(\d+)", os.path.basename(d))
+            pids = [int(x) for x in m if int(x) > 1]
+            if pids and any(os.path.exists("/proc/%d" % p) for p in pids):
+                continue
+            try:
+                if os.path.isdir(d):
+                    shutil.rmtree(d, ignore_errors=True)
+                else:
+                    os.unlink(d)
+            except OSError:
+                pass
+
+
 def union_hashes(files):
     import array
     seen = set()
@@ -279,6 +299,7 @@ def finish(ctx, coverage, violations, inconclusive=None, assumptions=None, level
         json.dump(ev, f, indent=1, sort_keys=True)
     os.replace(path + ".tmp", path)
     shutil.rmtree(ctx.tmp, ignore_errors=True)
+    sweep_scratch()
     if real:
         shown = set()
         for v in real:
